@@ -29,7 +29,7 @@ TRUST = [
     "pickle itself (protocols 2..5) is assumed to transport the state tuple / dict faithfully; exercised on the implementation by S",
     "the implementation evaluates sqrt and the norm in float64; verdicts within 1e-9 relative of the tolerance are counted and skipped",
     "'same result under every other operation' is S only: outcomes of ~60 public calls compared on original and restored, ints exactly, floats to 2e-5; a difference counts only if "
-    "three single-precision perturbations of the original leave the outcome unchanged (otherwise counted as float32-nongeneric)",
+    "five single-precision perturbations of the original leave the outcome unchanged (otherwise counted as float32-nongeneric)",
 ]
 ASSUMPTIONS = ["finite positions whose float32 cast does not overflow; indices address existing vertices; one crossing row per edge",
                "no subclass of Lattice (isinstance asymmetry is outside the model)"]
@@ -247,8 +247,6 @@ def build_ops(a, V, E, heavy=True):
         ("edge_color(3,n_solutions=2)", lambda l: gc.edge_color(l, 3, n_solutions=2)),
         ("vertex_color(indices,4)", lambda l: gc.vertex_color(l.edges.indices, 4)),
         ("color_lattice", lambda l: gc.color_lattice(l)),
-        ("dimerise", lambda l: gu.dimerise(l)),
-        ("dimerise(2)", lambda l: gu.dimerise(l, 2)),
         ("cut_boundaries", lambda l: cut_boundaries(l)),
         ("cut_boundaries(x)", lambda l: cut_boundaries(l, [True, False])),
         ("cut_boundaries(y)", lambda l: cut_boundaries(l, [False, True])),
@@ -280,9 +278,14 @@ def build_ops(a, V, E, heavy=True):
         ("plot_edge_indices", plot_op(lambda l, ax: plotting.plot_edge_indices(l, ax=ax))),
         ("plot_plaquette_indices", plot_op(lambda l, ax: plotting.plot_plaquette_indices(l, ax=ax))),
     ]
+    # a lattice with an odd number of vertices has no dimerisation / 1-factorisation, and that parity argument is
+    # exponentially hard for the SAT solver koala calls: only small odd lattices get these calls
+    if V % 2 == 0 or V <= 24:
+        ops += [("dimerise", lambda l: gu.dimerise(l)), ("dimerise(2)", lambda l: gu.dimerise(l, 2))]
+    if heavy and V <= 40:
+        ops.append(("edge_color(4,fixed)", lambda l: gc.edge_color(l, 4, fixed=[(0, 0)])))
     if heavy:
         ops += [
-            ("edge_color(4,fixed)", lambda l: gc.edge_color(l, 4, fixed=[(0, 0)])),
             ("vertices_to_polygon", lambda l: gu.vertices_to_polygon(l)),
             ("vertices_to_polygon(subset)", lambda l: gu.vertices_to_polygon(l, a["rm"])),
             ("plot_dual", plot_op(lambda l, ax: plotting.plot_dual(l, ax=ax))),
@@ -292,8 +295,8 @@ def build_ops(a, V, E, heavy=True):
         ]
         if V <= 60:
             ops.append(("vertex_color(indices,3)", lambda l: gc.vertex_color(l.edges.indices, 3)))
-        if V <= 120:
-            ops.append(("lloyd_relaxation(1)", lambda l: gu.lloyd_relaxation(l, 1)))
+        # lloyd_relaxation is left out: it re-runs Qhull on the plaquette centres and the vertex numbering Qhull returns
+        # changes under perturbations far below single precision (not a stable function of the lattice)
     for v in a["v"]:
         ops += [(f"vertex_neighbours({v})", lambda l, v=v: gu.vertex_neighbours(l, v)),
                 (f"clockwise_about({v})", lambda l, v=v: gu.clockwise_about(v, l))]
@@ -315,7 +318,7 @@ def build_ops(a, V, E, heavy=True):
 def noise_variants(pos, idx, cross, rng):
     """the original's arrays with single-precision-sized perturbations of the positions (float64 arrays)"""
     out = [Lattice(pos.astype(np.float32).astype(float), idx.copy(), cross.copy())]
-    for _ in range(2):
+    for _ in range(4):
         d = rng.uniform(-1, 1, size=pos.shape) * 2.0 ** -23 * np.maximum(1.0, np.abs(pos))
         out.append(Lattice(pos + d, idx.copy(), cross.copy()))
     return out
@@ -347,10 +350,11 @@ def is_bool(x):
 
 
 # ------------------------------------------------------------------------------------------ S + K per lattice
-def check_lattice(ctx, case, idx_case, prev, level):
-    """level: 'full' (every operation), 'light' (tables + cheap operations), 'values' (state, values, eq only)"""
+def check_lattice(ctx, case, idx_case, prev, level, prebuilt=None):
+    """level: 'full' (every operation), 'light' (tables + cheap operations), 'values' (state, values, eq only);
+    prebuilt: (arrays, lattice object) when the caller has built the (huge) lattice already"""
     res = ctx.res
-    arr, why = gen.try_build(case)
+    arr, why = (prebuilt[0], None) if prebuilt else gen.try_build(case)
     if arr is None:
         res.skip("generator-could-not-build-base")
         return None
@@ -359,7 +363,7 @@ def check_lattice(ctx, case, idx_case, prev, level):
     fam = case["family"] + ("/" + case["base"]["family"] if "base" in case else "")
     rng = np.random.default_rng([ctx.seed, idx_case, 9])
     try:
-        L = Lattice(pos.copy(), idx.copy(), cross.copy())
+        L = prebuilt[1] if prebuilt else Lattice(pos.copy(), idx.copy(), cross.copy())
     except Exception as e:
         res.skip(f"constructor-raised:{type(e).__name__}")
         return None
@@ -408,8 +412,8 @@ def check_lattice(ctx, case, idx_case, prev, level):
         if state_sig(st) != sig0:
             bad("getstate-depends-on-cache", f"pickled state changed after accessing {points[1:pi + 1]}")
         plist = protos if (V <= 400 and level != "values") else [protos[(idx_case + pi) % 4]]
-        if V > 5000 and pi not in (0, len(points) - 1):
-            plist = []
+        if V > 5000 and pi != len(points) - 1:
+            plist = []          # the constructor is O(V*E) (a minute at 65536 vertices): one load, taken with everything cached
         for pr in plist:
             try:
                 R = pickle.loads(pickle.dumps(L, protocol=pr))
@@ -420,6 +424,27 @@ def check_lattice(ctx, case, idx_case, prev, level):
             restored.append((pi, pr, R))
             check_restored_values(L, R, st0, bad, f"protocol {pr}, cache {cache_bits(L)}")
     res.extra["pickle_roundtrips"] = res.extra.get("pickle_roundtrips", 0) + nloads
+    # all 24 access orders on small lattices: the state (and a round trip at the end of each) never depends on the history
+    if V <= (16 if ctx.tier == "quick" else 80) and level != "values":
+        for perm in itertools.permutations(ATTRS):
+            Lh = Lattice(pos.copy(), idx.copy(), cross.copy())
+            for k, attr in enumerate(perm):
+                try:
+                    access(Lh, attr)
+                except Exception:
+                    pass
+                try:
+                    if state_sig(Lh.__getstate__()) != sig0:
+                        bad("getstate-depends-on-cache", f"pickled state changed after accessing {list(perm[:k + 1])}")
+                except Exception as e:
+                    bad("getstate-depends-on-cache", f"__getstate__ raised {type(e).__name__} after accessing {list(perm[:k + 1])}")
+            try:
+                Rh = pickle.loads(pickle.dumps(Lh, protocol=protos[(idx_case + len(perm[0])) % 4]))
+                if state_sig(Rh.__getstate__()) != sig0 or cache_bits(Rh) != "0000":
+                    bad("getstate-depends-on-cache", f"round trip after the access order {list(perm)} gives another state")
+            except Exception as e:
+                bad("roundtrip-raises", f"pickle round trip after the access order {list(perm)} raised {type(e).__name__}: {e}")
+        res.extra["lattices_with_all_24_histories"] = res.extra.get("lattices_with_all_24_histories", 0) + 1
     if not restored:
         return (pos, idx, cross, L)
 
@@ -539,8 +564,12 @@ def check_restored_values(L, R, st0, bad, ctxs):
             bad("restored-edges-differ", f"restored edges.indices differ ({ctxs})")
         if not np.array_equal(np.asarray(R.edges.crossing), np.asarray(L.edges.crossing)):
             bad("restored-crossing-differ", f"restored edges.crossing differ ({ctxs})")
-        if np.asarray(R.edges.indices).dtype != np.int64 or np.asarray(R.edges.crossing).dtype != np.int64:
-            bad("restored-narrow-dtype", f"restored index/crossing dtypes are {R.edges.indices.dtype}/{R.edges.crossing.dtype}, not int64 ({ctxs})")
+        # narrowed integer dtypes leak into downstream arithmetic (fix 1d3446a): the restored arrays must be able to hold
+        # whatever the original's integer dtype (at least the platform int) can
+        for nm, ro, lo in (("indices", R.edges.indices, L.edges.indices), ("crossing", R.edges.crossing, L.edges.crossing)):
+            want = np.asarray(lo).dtype if np.asarray(lo).dtype.kind in "iu" else np.dtype(int)
+            if not np.can_cast(np.promote_types(want, np.dtype(int)), np.asarray(ro).dtype, "safe"):
+                bad("restored-narrow-dtype", f"restored edges.{nm} has dtype {np.asarray(ro).dtype}, narrower than the original's {np.asarray(lo).dtype} ({ctxs})")
         p32 = np.asarray(L.vertices.positions).astype(np.float32)
         if not np.array_equal(np.asarray(R.vertices.positions, dtype=float), p32.astype(float)):
             bad("restored-positions-differ", f"restored positions are not the single-precision rounding of the original's ({ctxs})")
@@ -824,6 +853,63 @@ def check_crossing_range(ctx, case):
             pass
 
 
+# ------------------------------------------------------------------------------------------ extraction cross-check
+def coq_q(x):
+    n, d = Fraction(float(x)).as_integer_ratio()
+    return f"(({n}) # {d})"
+
+
+def coq_lat(pos, idx, cross):
+    P = "; ".join(f"({coq_q(x)}, {coq_q(y)})" for x, y in np.asarray(pos, dtype=float).reshape(-1, 2))
+    I = "; ".join(f"(({int(a)}), ({int(b)}))" for a, b in np.asarray(idx).reshape(-1, 2))
+    C = "; ".join(f"(({int(a)}), ({int(b)}))" for a, b in np.asarray(cross).reshape(-1, 2))
+    return f"(mkLat [{P}]%Q F64 [{I}] I64 [{C}] I64 fresh_cache)"
+
+
+def check_extraction_sample(ctx, xs, pairs):
+    """thorough tier: a sample of float32 casts and eq verdicts is re-evaluated INSIDE Coq (vm_compute on Model/Pickle.v)
+    and must agree with the extracted OCaml driver, so that a wrong extraction directive or driver bug cannot vouch for the model"""
+    import tempfile, subprocess, re, shutil
+    res = ctx.res
+    d = tempfile.mkdtemp(prefix="c09_vm_", dir="/var/tmp")
+    try:
+        src = ["From Coq Require Import List ZArith QArith.", "From Koala Require Import Model.Pickle.", "Import ListNotations.", "Open Scope Z_scope.",
+               "Definition xs : list Q := [" + "; ".join(coq_q(x) for x in xs) + "]%Q.",
+               "Eval vm_compute in (map (fun x => (f32_overflows x, Qnum (round32 x), Zpos (Qden (round32 x)))) xs)."]
+        for A, B in pairs:
+            src.append(f"Eval vm_compute in (lat_eq {coq_lat(*A)} {coq_lat(*B)}, lat_eq {coq_lat(*B)} {coq_lat(*A)}).")
+        open(os.path.join(d, "cases.v"), "w").write("\n".join(src) + "\n")
+        p = subprocess.run(["timeout", "900", "coqc", "-Q", os.path.join(VERIF, "coq"), "Koala", "cases.v"], cwd=d, capture_output=True, text=True)
+        if p.returncode != 0:
+            raise RuntimeError("in-Coq re-evaluation failed: " + (p.stdout + p.stderr)[-800:])
+        out = p.stdout
+        trip = re.findall(r"\(\s*(true|false),\s*\(?(-?\d+)\)?,\s*(\d+)\s*\)", out)
+        verd = re.findall(r"=\s*\(\s*(Some\s+true|Some\s+false|None),\s*(Some\s+true|Some\s+false|None)\s*\)", out)
+        verd = [(" ".join(a.split()), " ".join(b.split())) for a, b in verd]
+        if len(trip) != len(xs) or len(verd) != len(pairs):
+            raise RuntimeError(f"in-Coq re-evaluation: parsed {len(trip)}/{len(xs)} casts and {len(verd)}/{len(pairs)} verdicts")
+        toks = ["r32", str(len(xs))]
+        for x in xs:
+            n, dd = float(x).as_integer_ratio()
+            toks += [hx(n), hx(dd)]
+        m = run_driver(ctx.exe["c09"], [" ".join(toks)])[0]
+        c = Cursor(m["r32"])
+        drv = c.list(lambda: (c.next() == "1", c.z(), c.z()))
+        for x, (o, n, dd), (co, cn, cd) in zip(xs, drv, trip):
+            res.count("extraction-crosscheck", None)
+            if (o, n, dd) != (co == "true", int(cn), int(cd)):
+                ctx.k_mismatch(f"extracted driver and vm_compute disagree on round32 {x!r}: {(o, n, dd)} vs {(co, cn, cd)}", {"kind": "r32", "xs": [x]})
+        lines = ["eq " + ser_lat(*A) + " " + ser_lat(*B) for A, B in pairs]
+        for (A, B), mo, v in zip(pairs, run_driver(ctx.exe["c09"], lines), verd):
+            res.count("extraction-crosscheck", None)
+            tr = {"Some true": "1", "Some false": "0", "None": "R"}
+            if mo["eq"][:2] != [tr[v[0]], tr[v[1]]]:
+                ctx.k_mismatch(f"extracted driver and vm_compute disagree on lat_eq: {mo['eq'][:2]} vs {v}", {"kind": "eqpair", "A": [a.tolist() for a in A], "B": [b.tolist() for b in B], "label": "crosscheck"})
+        res.extra["extraction_crosscheck_cases"] = len(xs) + len(pairs)
+    finally:
+        shutil.rmtree(d, ignore_errors=True)
+
+
 # ------------------------------------------------------------------------------------------ case lists
 def lattice_cases(tier, seed):
     rng = np.random.default_rng([seed, 909])
@@ -849,7 +935,7 @@ def lattice_cases(tier, seed):
 
 
 def huge_cases(tier):
-    sq = lambda nx, ny: {"family": "example", "name": "square_lattice", "args": [nx, ny]}
+    sq = lambda nx, ny: {"family": "example", "name": "square_lattice", "args": [nx, ny], "huge": True}
     return [sq(255, 257), sq(256, 256), sq(250, 280)] if tier != "quick" else []
 
 
@@ -858,6 +944,8 @@ def level_for(i, V, tier):
         return "values"
     if tier == "quick":
         return "full" if (V <= 300 and i % 2 == 0) or V in (255, 256) else "light"
+    if tier == "search":
+        return "full" if V <= 300 else "light"
     return "full" if V <= 700 else "light"
 
 
@@ -865,11 +953,17 @@ def evaluate(ctx, cases, tier, with_pairs=True):
     prev = None
     rng = np.random.default_rng([ctx.seed, 77])
     for i, c in enumerate(cases):
-        arr, _ = gen.try_build(c)
+        pre = None
+        if c.get("huge"):           # built once (a minute each): the generator's own object is the lattice under test
+            obj = raw_object(c)
+            pre = (gen.arrays(obj), obj)
+            arr = pre[0]
+        else:
+            arr, _ = gen.try_build(c)
         V = len(arr[0]) if arr is not None else 0
-        cur = check_lattice(ctx, c, i, prev, level_for(i, V, tier))
+        cur = check_lattice(ctx, c, i, prev, level_for(i, V, tier), prebuilt=pre)
         if cur is not None:
-            if with_pairs and V <= 1000 and (tier != "quick" or i % 3 == 0 or V in (255, 256)):
+            if with_pairs and V <= 1000 and (tier != "quick" or i % 3 == 0 or V in (255, 256, 1, 2)):
                 for p in eq_pairs_for(cur[:3], rng):
                     check_eq_pair(ctx, p)
             if prev is None or cur[3].n_vertices != prev[3].n_vertices or i % 5 == 0:
@@ -894,6 +988,17 @@ def run(ctx):
     check_backward_files(ctx)
     evaluate(ctx, lattice_cases(tier, ctx.seed), tier)
     evaluate(ctx, huge_cases(tier), tier, with_pairs=False)
+    if tier != "quick":
+        xs = r32_inputs(np.random.default_rng([ctx.seed, 34]), 60)
+        pairs = []
+        for c in lattice_cases("quick", ctx.seed)[:40:4]:
+            arr, _ = gen.try_build(c)
+            if arr is None or len(arr[0]) > 60:
+                continue
+            for p in eq_pairs_for(arr, rng)[:4]:
+                to = lambda T: (np.array(T[0], dtype=float).reshape(-1, 2), np.array(T[1], dtype=int).reshape(-1, 2), np.array(T[2], dtype=int).reshape(-1, 2))
+                pairs.append((to(p["A"]), to(p["B"])))
+        check_extraction_sample(ctx, xs, pairs)
 
 
 def check_backward_files(ctx):
@@ -910,8 +1015,12 @@ def check_backward_files(ctx):
         res.violation("legacy-dict-state", f"loading tests/data/pickled_lattice_V0/V1.pickle raised {type(e).__name__}: {e}", {"kind": "files"})
         return
     res.count("shipped-pickles", "V0V1")
+    # V0 was written by an older koala (its Vertices has no coordination_numbers, its plaquette centres are vertex
+    # averages), so only what the property claims for a legacy state is compared: equality both ways, and the
+    # combinatorial content of the plaquettes it carries against the recomputed ones
+    plq = lambda l: [[p.vertices, p.edges, p.directions, p.n_sides] for p in l.plaquettes]
     try:
-        ok = (l0 == l1) is True and (l1 == l0) is True and same_outcome(outcome(tables, l0), outcome(tables, l1))
+        ok = (l0 == l1) is True and (l1 == l0) is True and (l0 != l1) is False and same_outcome(outcome(plq, l0), outcome(plq, l1))
     except Exception as e:
         ok = False
     if not ok:
@@ -919,12 +1028,16 @@ def check_backward_files(ctx):
 
 
 def search(ctx):
-    """a proof, the translator tie or K broke: same families, other seed, thorough sizes (without the 65k cases in the quick tier)"""
+    """a proof, the translator tie or K broke: same families with another seed and more Voronoi lattices; every lattice
+    gets the full operation set and the perturbed-copy pairs (thorough tier: thorough sizes and the 65k cases as well)"""
     ctx.seed += 1
-    evaluate(ctx, lattice_cases("thorough", ctx.seed), "thorough")
     rng = np.random.default_rng([ctx.seed, 33])
     check_r32(ctx, r32_inputs(rng, 3000), "search")
-    if ctx.tier != "quick":
+    if ctx.tier == "quick":
+        cases = lattice_cases("quick", ctx.seed) + gen.voronoi_cases("quick", rng, 20, 60)
+        evaluate(ctx, cases, "search")
+    else:
+        evaluate(ctx, lattice_cases("thorough", ctx.seed), "thorough")
         evaluate(ctx, huge_cases("thorough"), "thorough", with_pairs=False)
 
 
